@@ -13,7 +13,7 @@ import (
 
 // c17G6: a way loses its own feature (is put into the skippable set) only when it has no interesting tag of its own.
 //
-// Roles, not names:
+// Roles, not names (one exported library anchor: osm.Tags.AnyInteresting, the interest test without discount set):
 //   - the skippable set is the context field of type map[osm.WayID]struct{};
 //   - the interest predicate is a function of the package with signature func(osm.Tags, map[string]string) bool
 //     (second argument: tags to discount);
@@ -86,6 +86,28 @@ type c17G6An struct {
 	pred  []*types.Func
 	poly  func(*c17Fn) bool
 	reach map[*c17Fn]map[*cfg.Block]bool // blocks reachable for a member that is not an outer way
+}
+
+// c17NilDiscount stands for the discount set of an interest test that has none (osm.Tags.AnyInteresting).
+var c17NilDiscount = &ast.Ident{Name: "nil"}
+
+// interestTest recognises the two spellings of "these tags contain an interesting tag": the package predicate
+// pred(tags, discount) and the exported library method osm.Tags.AnyInteresting() (no discount set). It returns the
+// tags expression and the discount argument.
+func (an *c17G6An) interestTest(call *ast.CallExpr) (tags, discount ast.Expr, ok bool) {
+	f := c17Callee(an.a.info, call)
+	if f == nil {
+		return nil, nil, false
+	}
+	if len(call.Args) == 2 && an.isPred(f) {
+		return call.Args[0], call.Args[1], true
+	}
+	if len(call.Args) == 0 && isMethod(f, core.ModulePath+".Tags", "AnyInteresting") {
+		if sel, isSel := ast.Unparen(call.Fun).(*ast.SelectorExpr); isSel {
+			return sel.X, c17NilDiscount, true
+		}
+	}
+	return nil, nil, false
 }
 
 func (an *c17G6An) isPred(f *types.Func) bool {
@@ -245,6 +267,9 @@ func (an *c17G6An) defReachesUse(fn *c17Fn, ov *types.Var, def, use ast.Node, lo
 
 func (an *c17G6An) isNil(e ast.Expr) bool {
 	e = ast.Unparen(e)
+	if e == ast.Expr(c17NilDiscount) {
+		return true
+	}
 	if tv, ok := an.a.info.Types[e]; ok && tv.IsNil() {
 		return true
 	}
@@ -359,7 +384,7 @@ func (an *c17G6An) discount(fn *c17Fn, use ast.Node, ign ast.Expr, builder bool)
 // argument (in the terms of fn) of a guard already found in the helper.
 func (an *c17G6An) store(fn *c17Fn, at ast.Node, key, shown ast.Expr, ign ast.Expr, depth int) {
 	r, a, info, fset := an.r, an.a, an.a.info, an.a.fset
-	c := "skippable@" + fn.Name() + " " + src(fset, shown)
+	c := "skippable@" + fn.Name() + " " + src(fset, ast.Unparen(shown))
 	builder := an.poly(fn)
 	key = stripDerefParen(a.resolve(fn, stripDerefParen(key)))
 	wayObj := rootObj(info, key)
@@ -402,10 +427,14 @@ func (an *c17G6An) store(fn *c17Fn, at ast.Node, key, shown ast.Expr, ign ast.Ex
 		for i := range facts {
 			ft := &facts[i]
 			call, ok := ast.Unparen(ft.expr).(*ast.CallExpr)
-			if !ok || ft.val || len(call.Args) != 2 || !an.isPred(c17Callee(info, call)) {
+			if !ok || ft.val {
 				continue
 			}
-			arg := stripDerefParen(a.resolve(fn, stripDerefParen(call.Args[0])))
+			tagsArg, _, isTest := an.interestTest(call)
+			if !isTest {
+				continue
+			}
+			arg := stripDerefParen(a.resolve(fn, stripDerefParen(tagsArg)))
 			tf := c17FieldOf(info, arg)
 			if tf != nil && namedPath(tf.Type()) == core.ModulePath+".Tags" {
 				owner := arg.(*ast.SelectorExpr).X
@@ -421,7 +450,7 @@ func (an *c17G6An) store(fn *c17Fn, at ast.Node, key, shown ast.Expr, ign ast.Ex
 		}
 		switch {
 		case hit != nil:
-			ign = ast.Unparen(hit.expr).(*ast.CallExpr).Args[1]
+			_, ign, _ = an.interestTest(ast.Unparen(hit.expr).(*ast.CallExpr))
 			guard = hit.expr
 		case other != nil && builder && otherRelation:
 			r.OKTrivial(c, other.expr.Pos(), "inside the multipolygon builder, under `%s` false: the single outer way of an old-style multipolygon takes over the relation's feature (C16, not claimed)", src(fset, other.expr))
